@@ -82,6 +82,11 @@ func renderAttrs(attrs []html.Attribute) string {
 		}
 
 		sb.WriteByte(' ')
+		if a.Namespace != "" {
+			// attributes of foreign elements: xlink:href, xml:lang
+			sb.WriteString(a.Namespace)
+			sb.WriteByte(':')
+		}
 		sb.WriteString(key)
 		sb.WriteByte('=')
 		sb.WriteByte('"')
